@@ -48,6 +48,11 @@ pub fn alphabet() -> Vec<Req> {
         // no query of its own, but `=` inside the bytes that a stale query slice of a longer predecessor would cover
         r("get-cookie-no-query", b"GET /e HTTP/1.1\r\nHost: h\r\nCookie: z=1\r\n\r\n".to_vec(), "header"),
     ];
+    // refused because the head does not fit the buffer: the rest of that head is still on the connection when the refusal is
+    // sent (one buffer + a bit / more than two buffers) - it must not be taken for the next request
+    let oversized = |pad: usize| { let mut v = b"GET /e HTTP/1.1\r\nHost: h\r\nX-Pad: ".to_vec(); v.extend(filler(pad)); v.extend_from_slice(b"\r\n\r\n"); v };
+    v.push(r("refused-head-1100", oversized(1100 - 37), "refused"));
+    v.push(r("refused-head-2100", oversized(2100 - 37), "refused"));
     v.push(Req { name: "get-close", bytes: b"GET /e HTTP/1.1\r\nHost: h\r\nConnection: close\r\n\r\n".to_vec(), head: false, closes: true, kind: "close" });
     v
 }
@@ -56,15 +61,40 @@ pub fn check_history(ctx: &mut Ctx, router: &ohkami::__verif__::VerifRouter, alp
     ctx.transitions += hist.len() as u64;
     let segments: Vec<Vec<u8>> = hist.iter().map(|&i| alpha[i].bytes.clone()).collect();
     let obs = wire::run_mem(router, &segments);
-    // expected: fresh responses up to and including the first closing request
-    let mut expected: Vec<&Vec<u8>> = vec![];
-    let mut closed_at = None;
-    for (k, &i) in hist.iter().enumerate() { expected.push(&fresh[i]); if alpha[i].closes { closed_at = Some(k); break } }
+    // A request that the *parser* refuses may end the session after its error response (C02: "answered with an error response
+    // or by closing the connection"; after a refusal the server cannot know where the next request starts).  Both readings are
+    // admitted: the session goes on and serves the following requests as fresh ones, or it ends right after the refusal.
+    let refusal_at = hist.iter().position(|&i| matches!(alpha[i].kind, "refused" | "malformed"));
+    let strict = problems_of(alpha, fresh, hist, &obs, None);
+    let (problems, closed_at, expected) = match (strict.0.is_empty(), refusal_at) {
+        (true, _) | (false, None) => strict,
+        (false, Some(r)) => { let lenient = problems_of(alpha, fresh, hist, &obs, Some(r));
+            if lenient.0.is_empty() || matches!(obs.end, End::ServerClosed { .. }) { lenient } else { strict } }
+    };
     let heads: Vec<bool> = hist.iter().map(|&i| alpha[i].head).collect();
     let (got, leftover) = wire::split_responses(&obs.written, &heads);
     let names: Vec<&str> = hist.iter().map(|&i| alpha[i].name).collect();
     let witness = |problem: &str, k: usize| json!({"history": names, "problem": problem, "at_request": k,
         "expected": expected.get(k).map(|e| esc(&e[..e.len().min(400)])), "observed": got.get(k).map(|e| esc(&e[..e.len().min(400)])), "end": format!("{:?}", obs.end), "leftover": esc(&leftover[..leftover.len().min(100)])});
+    if problems.is_empty() {
+        let collision = hist.len() >= 2 && hist.windows(2).any(|w| alpha[w[0]].kind != "plain" || alpha[w[0]].bytes.len() > alpha[w[1]].bytes.len());
+        let how = match closed_at { Some(k) if alpha[hist[k]].closes => "closed", Some(_) => "ended-after-refusal", None => "kept" };
+        ctx.pass(&format!("len{}:{how}", hist.len()), hist.len() >= 2, collision);
+    } else {
+        let (cls, k) = problems[0].clone();
+        ctx.violation(&format!("C05/{cls}"), true, || witness(&cls, k));
+    }
+}
+
+/// The oracle on one observed session.  `ends_at`: the request after whose (error) response the session is taken to end
+/// (besides the first `Connection: close`).  Returns (problems, index of the request that ended the session, expected responses).
+fn problems_of<'a>(alpha: &[Req], fresh: &'a [Vec<u8>], hist: &[usize], obs: &wire::SessionObs, ends_at: Option<usize>) -> (Vec<(String, usize)>, Option<usize>, Vec<&'a Vec<u8>>) {
+    // expected: fresh responses up to and including the first closing request
+    let mut expected: Vec<&Vec<u8>> = vec![];
+    let mut closed_at = None;
+    for (k, &i) in hist.iter().enumerate() { expected.push(&fresh[i]); if alpha[i].closes || ends_at == Some(k) { closed_at = Some(k); break } }
+    let heads: Vec<bool> = hist.iter().map(|&i| alpha[i].head).collect();
+    let (got, leftover) = wire::split_responses(&obs.written, &heads);
     let pair_feature = |k: usize| -> String { let prev = if k == 0 { "first" } else { alpha[hist[k - 1]].kind }; format!("{}>{}", prev, alpha[hist[k]].kind) };
     let mut problems: Vec<(String, usize)> = vec![];
     if !leftover.is_empty() { problems.push((format!("{}/malformed-response", pair_feature(got.len().min(hist.len() - 1))), got.len())) }
@@ -99,27 +129,31 @@ pub fn check_history(ctx: &mut Ctx, router: &ohkami::__verif__::VerifRouter, alp
         (End::Panic(p), _) => problems.push((format!("{}/panic:{p}", pair_feature(got.len().min(hist.len() - 1))), got.len())),
         (End::Livelock, _) => problems.push(("livelock".into(), 0)),
     }
-    if problems.is_empty() {
-        let collision = hist.len() >= 2 && hist.windows(2).any(|w| alpha[w[0]].kind != "plain" || alpha[w[0]].bytes.len() > alpha[w[1]].bytes.len());
-        ctx.pass(&format!("len{}:{}", hist.len(), if closed_at.is_some() { "closed" } else { "kept" }), hist.len() >= 2, collision);
-    } else {
-        let (cls, k) = problems[0].clone();
-        ctx.violation(&format!("C05/{cls}"), true, || witness(&cls, k));
-    }
+    (problems, closed_at, expected)
 }
 
 /// The oracle applied to the real `Session::manage` over loopback TCP.  Returns true if a violation was reported.
 pub fn check_history_tcp(ctx: &mut Ctx, router: &ohkami::__verif__::VerifRouter, tcp: &wire::TcpBinding, alpha: &[Req], fresh: &[Vec<u8>], hist: &[usize]) -> bool {
     let segments: Vec<Vec<u8>> = hist.iter().map(|&i| alpha[i].bytes.clone()).collect();
     let real = match tcp.run(router, &segments) { Ok(r) => r, Err(e) => { ctx.machinery_error(format!("tcp run failed: {e}")); return true } };
-    let mut expected: Vec<&Vec<u8>> = vec![];
-    let mut closed_at = None;
-    for (k, &i) in hist.iter().enumerate() { expected.push(&fresh[i]); if alpha[i].closes { closed_at = Some(k); break } }
     let heads: Vec<bool> = hist.iter().map(|&i| alpha[i].head).collect();
     let (got, leftover) = wire::split_responses(&real.written, &heads);
     let names: Vec<&str> = hist.iter().map(|&i| alpha[i].name).collect();
-    let k = (0..expected.len().max(got.len())).find(|&k| expected.get(k).map(|e| e.as_slice()) != got.get(k).map(|g| g.as_slice()));
-    let end_ok = real.server_closed_first == closed_at.is_some();
+    // as in `check_history`: the session may go on after a parser refusal, or end right after it
+    let refusal_at = hist.iter().position(|&i| matches!(alpha[i].kind, "refused" | "malformed"));
+    let judge = |ends_at: Option<usize>| {
+        let mut expected: Vec<&Vec<u8>> = vec![];
+        let mut closed_at = None;
+        for (k, &i) in hist.iter().enumerate() { expected.push(&fresh[i]); if alpha[i].closes || ends_at == Some(k) { closed_at = Some(k); break } }
+        let k = (0..expected.len().max(got.len())).find(|&k| expected.get(k).map(|e| e.as_slice()) != got.get(k).map(|g| g.as_slice()));
+        let end_ok = real.server_closed_first == closed_at.is_some();
+        (k, end_ok, expected)
+    };
+    let (mut k, mut end_ok, mut expected) = judge(None);
+    if !(k.is_none() && leftover.is_empty() && end_ok) { if let Some(r) = refusal_at {
+        let lenient = judge(Some(r));
+        if (lenient.0.is_none() && lenient.1) || real.server_closed_first { (k, end_ok, expected) = lenient }
+    } }
     if k.is_none() && leftover.is_empty() && end_ok { return false }
     let k = k.unwrap_or(got.len().min(hist.len() - 1));
     let prev = if k == 0 { "first" } else { alpha[hist[(k - 1).min(hist.len() - 1)]].kind };
